@@ -57,7 +57,7 @@ func execTap(op string, a []string) (string, bool) {
 		}
 		return hx(root[:]) + " " + hx(prog) + " | " + strings.Join(parts, ","), true
 	}
-	return "", false
+	return execHard(op, a)
 }
 
 func leafStr(ver byte, script []byte) string { return hx([]byte{ver}) + ":" + hx(script) }
@@ -94,11 +94,11 @@ func genTap(g *core.Gen) {
 	key := func() string { return hx(pubKeys(r)[r.Intn(2)]) }
 	for n := 1; n <= 64; n++ { // every leaf count up to 64
 		for k := 0; k < g.N(1, 6); k++ {
-			g.Case("tap-"+strconv.Itoa((n+15)/16*16), n > 1, "C16 tap "+key()+" "+mk(n, false))
+			gc(g, "tap-"+strconv.Itoa((n+15)/16*16), n > 1, "C16 tap "+key()+" "+mk(n, false))
 		}
 	}
 	for k := 0; k < g.N(30, 400); k++ {
-		g.Case("tap-small", true, "C16 tap "+key()+" "+mk(1+r.Intn(9), false))
+		gc(g, "tap-small", true, "C16 tap "+key()+" "+mk(1+r.Intn(9), false))
 	}
 	// identical leaves (same version and script) at several positions
 	for k := 0; k < g.N(40, 400); k++ {
@@ -107,6 +107,6 @@ func genTap(g *core.Gen) {
 		for d := 0; d < 1+r.Intn(3); d++ {
 			ls[r.Intn(n)] = ls[r.Intn(n)]
 		}
-		g.Case("tap-dup", true, "C16 tap "+key()+" "+strings.Join(ls, ","))
+		gc(g, "tap-dup", true, "C16 tap "+key()+" "+strings.Join(ls, ","))
 	}
 }
